@@ -22,7 +22,7 @@ from vf.specs import ALL_FAMILIES, build, grid, loggrid, sgrid, vec
 ID = "C18"
 LEVEL = "exploration"
 RULE = (
-    "(1) Hypothesis draws traces with the generators of C03/C04/C06 (fresh runs with tiny line-search budgets, gradient scaler, restart chains with kept/reduced maxcor; callable gradient) and objective redefinitions through an update function (C13's switch generator): for every callback "
+    "(1) Hypothesis draws traces with the generators of C03/C04/C06 (fresh runs with tiny line-search budgets, gradient scaler, restart chains with kept/reduced maxcor; callable gradient; plus 'rough' traces: non-convex objectives with maxls in 1..3, where unstored steps and memory resets follow each other) and objective redefinitions through an update function (C13's switch generator): for every callback "
     "state and result the pairs must number <= maxcor, be bit-exact differences of visited iterates and of the gradients the harness returned there (times the scaling factor), in chronological order, with "
     "s.y>0; pairs inherited from a checkpoint must equal the checkpoint's newest pairs up to the reconstruction rounding of C06(a). The dense inverse-BFGS matrix built by the harness must be symmetric "
     "positive definite and equal to the operator. (2) arbitrary positive-curvature pair sets (size 1..12, dimension 1..30, y = A s + perturbation, and non-quadratic sets) for extract_hess_inv_diag. "
@@ -50,13 +50,26 @@ def check_operator(state_or_pairs, hess_inv=None, stats=None, what="state"):
         if stats is not None:
             stats.bump("operator-ill-conditioned-gated")
         return
-    require(float(np.max(np.abs(H - H.T))) <= 1e-9 * float(np.max(np.abs(H))), "operator-symmetric", f"{what}: asymmetry {float(np.max(np.abs(H - H.T))):.3e}")
+    # rounding of the recursion itself grows with the conditioning: the comparison tolerance follows it
+    # ... and with the conditioning of the *intermediate* matrices of the recursion, which a nearly
+    # orthogonal pair (s.y << |s||y|) makes far worse than the final one
+    amp = max((float(np.linalg.norm(sk[j]) * np.linalg.norm(yk[j])) / float(sk[j] @ yk[j])) ** 2 for j in range(sk.shape[0]))
+    # ... and with the mismatch between the identity the recursion starts from and the scale of the pairs
+    # (problems posed in tiny or huge units): the remnant of H0 = I is only cancelled up to rounding
+    gam = [float(sk[j] @ yk[j]) / float(yk[j] @ yk[j]) for j in range(sk.shape[0])]
+    mismatch = max(max(g_, 1.0 / g_) for g_ in gam)
+    rel = max(1e-9, 1e3 * EPS * cond, 1e3 * EPS * amp, 1e3 * EPS * mismatch)
+    if rel > 1e-3:
+        if stats is not None:
+            stats.bump("operator-ill-conditioned-gated")
+        return
+    require(float(np.max(np.abs(H - H.T))) <= rel * float(np.max(np.abs(H))), "operator-symmetric", f"{what}: asymmetry {float(np.max(np.abs(H - H.T))):.3e}")
     require(ev.min() > 0, "operator-positive-definite", f"{what}: smallest eigenvalue {ev.min():.3e}")
     if hess_inv is not None:
         from lbfgsb import extract_hess_inv_diag
 
         D = np.asarray(hess_inv.todense())
-        tol = 1e-9 * float(np.max(np.abs(H)))
+        tol = rel * float(np.max(np.abs(H)))
         require(float(np.max(np.abs(D - H))) <= tol, "operator-is-inverse-bfgs-of-pairs", f"{what}: |todense - H_ref| = {float(np.max(np.abs(D - H))):.3e}")
         diag = np.asarray(extract_hess_inv_diag(hess_inv))
         require(diag.shape == (n,), "diagonal-utility", f"{what}: shape {diag.shape}")
@@ -164,6 +177,8 @@ def check_trace(spec, stats=None):
             prev, cfg = nxt, c2
             nrest += 1
     if stats is not None:
+        if merged and reset:
+            stats.bump("traces-with-both-an-unstored-step-and-a-memory-reset")
         stats.case(spec, merged or overflow or reset or nrest >= 1,
                    [f"merged={merged}", f"overflow={overflow}", f"reset={reset}", f"restarts={nrest}", f"scaler={'scaler' in rspec}"],
                    sample={"family": rspec["problem"]["obj"]["family"], "cfg": rspec["cfg"], "merged_pair": merged, "overflow": overflow, "memory_reset": reset, "restarts": nrest})
@@ -173,29 +188,21 @@ def check_trace(spec, stats=None):
 def check_redefinition(spec, stats=None):
     """Traces in which an update function switches the objective: from the switch on, the pairs of
     every state must be exact differences of the *rewritten* gradients with s.y > 0 and the operator SPD."""
-    from collections import deque
-
-    from vf.props.c13 import make_objB
+    from vf.props.c13 import make_switch_update
 
     rspec = spec["run"]
     prob = build(rspec["problem"])
     cfg = dict(rspec["cfg"])
     sw = spec["switch"]
     j = sw["at"]
-    objB = make_objB(prob, sw)
     info = {}
-
-    def upd(i, x, f0, f0_old, grad, X, G, tr):
-        if i == j:
-            tr.holder["obj"] = objB
-            info["ncb"] = len(tr.cb)
-            info["npairs_before"] = max(len(X) - 1, 0)
-            f0n = float(objB.f(x))
-            return f0n, f0n + 1.0 + abs(f0n), np.array(objB.g(x)), deque(np.array(objB.g(xi)) for xi in X)
-        return f0, f0_old, grad, G
+    upd, objB = make_switch_update(prob, sw, info)
 
     tr = run_min(prob, cfg, callback="passive", update_fun_def=upd)
     if tr.exc is not None:
+        from vf.props.c13 import numerical_breakdown_gate
+
+        numerical_breakdown_gate(tr, stats)
         raise tr.exc
     if "ncb" not in info:
         if stats is not None:
@@ -272,8 +279,19 @@ def trace_strategy(draw):
     return {"run": r, "restarts": restarts}
 
 
+@st.composite
+def rough_trace_strategy(draw):
+    """Non-convex objectives with a one- or two-trial line search: steps whose curvature pair is rejected and
+    failed line searches (memory resets) are frequent, and so is the one right after the other."""
+    r = draw(run_spec(families=("sines", "badscale", "bench", "rosenbrock", "sines"), n_max=4, jac_modes=("callable",), maxiter=(8, 40), maxfun=(300, 300),
+                      ftols=(0.0,), gtols=(1e-10,), maxcor_max=10, allow_degenerate=False))
+    r["cfg"]["maxls"] = draw(st.sampled_from([1, 2, 2, 3]))
+    return {"run": r, "restarts": []}
+
+
 def shard(ctx):
     ctx.hyp("traces", trace_strategy(), check_trace, ctx.pick(3000, 90000))
+    ctx.hyp("rough-traces", rough_trace_strategy(), check_trace, ctx.pick(8000, 120000))
     from vf.props.c13 import switch_strategy
 
     ctx.hyp("redefinitions", switch_strategy(), check_redefinition, ctx.pick(2500, 40000))
